@@ -297,6 +297,7 @@ def build_and_audit(prop, tier, translate_fn):
                 obligations.append({"name": "translate:" + prop, "kind": "translator", "ok": True, "detail": gen_info})
             except Exception as e:
                 obligations.append({"name": "translate:" + prop, "kind": "translator", "ok": False, "detail": f"{type(e).__name__}: {e}"})
+        sh(["python3", "gen_dispatch.py"], cwd=LEAN_DIR)
         rc, out = sh(["lake", "build", "rvdriver"], cwd=LEAN_DIR)
         if rc != 0:
             raise HarnessError("lean driver does not build:\n" + out[-3000:])
